@@ -70,6 +70,17 @@ def run(chk, facts, tier):
                     ok = other is not None and any(strip_casts(v).n == 'connection_instant_passed' for t2, o2, v, s2 in stores(other) if v is not None) and \
                         any(strip_casts(v).n == 'disconnect' for t2, o2, v, s2 in stores(other) if v is not None)
                     why = 'instant-passed edge does not terminate the connection with reason `instant passed`'
+                if ok:
+                    # both counters wrap at 2^16: the test has to be made on the 16 bit difference, a direct ordering comparison of the two is wrong around the wrap
+                    for c in inst:
+                        for x in deep_walk(c):
+                            b = as_binop(x)
+                            if b and b[0] in ('<', '>', '<=', '>='):
+                                sides = [deep(b[1]), deep(b[2])]
+                                if any(is_name(y, 'defered_conn_event_counter_') for y in sides) and any(y is not None and not isinstance(y, int) and y.is_call('connection_event_counter') for y in sides):
+                                    ok = False
+                                    why = ('the instant is compared with the connection event counter by `%s`: both are 16 bit counters that wrap, an instant behind the wrap (counter 65500, instant 100) is taken for passed and the link is terminated; '
+                                           'the test has to be made on the 16 bit difference (sign bit)' % x.text()[:60])
                 chk.instance('defer-only-if-instant-ahead', fn, '%s: PDU deferred' % op, ok, '' if ok else why, node=st, key=op)
     for op in INSTANT:
         chk.require(op in seen or tier == 'quick' and False, 'no deferral store found for %s' % op)
